@@ -40,7 +40,9 @@ EdgeInts  == << Atom("int", 4 * (-129), ""), Atom("int", 4 * (-128), ""),
                 Atom("int", 4 * 127, ""), Atom("int", 4 * 128, ""),
                 Atom("int", 4 * 255, ""), Atom("int", 4 * 256, "") >>
 Floats    == [i \in 1..37 |-> Atom("float", i - 13, "")]               \* -3.0 .. 6.0 step 1/4
-EdgeFloats == << Atom("float", 4 * 127 + 2, ""), Atom("float", 4 * 256, "") >>
+\* the last four are rendered in exponent notation by the harness (5e2, -5e2, 1e3, 1e5)
+EdgeFloats == << Atom("float", 4 * 127 + 2, ""), Atom("float", 4 * 256, ""),
+                 Atom("float", 4 * 500, ""), Atom("float", 4 * (-500), ""), Atom("float", 4 * 1000, ""), Atom("float", 4 * 100000, "") >>
 Strings   == [i \in 1..6 |-> Atom("string", 0, StrOrd[i])]
 Bytes     == [i \in 1..6 |-> Atom("bytes", 0, StrOrd[i])]
 Others    == << Atom("bool", 1, ""), Atom("bool", 0, ""), Atom("null", 0, "") >>
@@ -56,7 +58,7 @@ Con(op, k, n, s) == [op |-> op, k |-> k, n |-> n, s |-> s]
 CmpOps == <<"lt", "le", "gt", "ge", "ne">>
 
 NumConsts == << Atom("int", -4, ""), Atom("int", 0, ""), Atom("int", 4, ""),
-                Atom("int", 8, ""), Atom("int", 20, ""),
+                Atom("int", 8, ""), Atom("int", 20, ""), Atom("int", 40, ""), Atom("int", 400, ""), Atom("int", -400, ""),
                 Atom("float", 2, ""), Atom("float", 6, ""), Atom("float", 10, ""),
                 Atom("float", 4, "") >>
 StrConsts == << Atom("string", 0, "a"), Atom("string", 0, "b"), Atom("bytes", 0, "a") >>
